@@ -28,7 +28,7 @@ func (c ocfg) name() string {
 var outageTiming = chlab.Timing{Rekey: 4 * time.Second, KeepAlive: 2 * time.Second, Reject: 6 * time.Second, Handshake: 100 * time.Millisecond}
 
 func outageScenario(c ocfg) *explore.Scenario {
-	sc := &explore.Scenario{Name: c.name(), PB: 0, NoCache: true}
+	sc := &explore.Scenario{Name: c.name(), PB: 0, NoCache: true, Single: true}
 	sc.Setup = func(x *vrt.Exec) {
 		x.MaxSteps = 2_000_000
 		x.SchedDeterministic = true
